@@ -43,15 +43,17 @@ def check_case(ctx, L, ex):
             ctx.count(f"cut:{k}")
         if not report(ctx, ID, L, case.type, data, case.cc, case.enc, ref, obs, extra=f"cut at {cut} of {n}", root=root):
             return
-    for k in sorted({1, 2, len(suffix)}):
-        if not 1 <= k <= len(suffix):
-            continue
-        data = case.data + suffix[:k]
+    from .. import faults
+
+    extra = [faults.SUFFIXES[(len(case.data) + j) % len(faults.SUFFIXES)] for j in (0, 1)]  # zero words, a tag, ... (what real dumps carry behind a message)
+    for sfx in [suffix[:k] for k in sorted({1, 2, len(suffix)}) if 1 <= k <= len(suffix)] + extra:
+        k = len(sfx)
+        data = case.data + sfx
         ref, obs = strict_pair(L, case.type, data, case.cc, case.enc, root=root)
-        ctx.case((case.type, case.cc, case.enc, data), True, sample={"type": case.type, "suffix": suffix[:k].hex(), "model": ref.kinds} if k == len(suffix) else None)
+        ctx.case((case.type, case.cc, case.enc, data), True, sample={"type": case.type, "suffix": sfx.hex(), "model": ref.kinds} if k == len(suffix) else None)
         for kk in ref.kinds:
             ctx.count(f"suffix:{kk}")
-        if not report(ctx, ID, L, case.type, data, case.cc, case.enc, ref, obs, extra=f"suffix {suffix[:k].hex()} appended", root=root):
+        if not report(ctx, ID, L, case.type, data, case.cc, case.enc, ref, obs, extra=f"suffix {sfx.hex()} appended", root=root):
             return
 
 
